@@ -60,4 +60,31 @@ let () =
            done;
            Printf.printf "lg %s cert=%b complete=%b n=%d coeferr=%h evalerr=%h nodeerr=%h\n%!" id cert complete n !coeferr !evalerr !nodeerr
          with e -> Printf.printf "MISMATCH %s runner-exception %s\n%!" id (Printexc.to_string e))
+      | "sq" :: id :: dd :: outs :: rest ->
+        (* sequence grid: sq <id> <d> <outs> nodes: x0 x1 .. pidx: i.. vals: v.. coef: c..   (exact Newton surpluses vs the implementation) *)
+        (try
+           let m = keyed rest and d = int_of_string dd and outs = int_of_string outs in
+           let nodes = Array.of_list (List.map (fun t -> q2Qc (q_of_float (float_of_tok t))) (get "nodes:" m)) in
+           let rec nat_of_int n = if n <= 0 then O else S (nat_of_int (n - 1)) in
+           let rec int_of_nat = function O -> 0 | S n -> 1 + int_of_nat n in
+           let xs n = let i = int_of_nat n in if i < Array.length nodes then nodes.(i) else q2Qc (q_of_float (1000.0 +. float_of_int i)) in
+           let pts = chunks d (List.map (fun t -> nat_of_int (int_of_string t)) (get "pidx:" m)) in
+           let n = List.length pts in
+           let vals = Array.of_list (List.map float_of_tok (get "vals:" m)) in
+           let coef = Array.of_list (List.map float_of_tok (get "coef:" m)) in
+           let scale = Array.fold_left (fun a v -> Float.max a (Float.abs v)) 1.0 vals in
+           let coeferr = ref 0.0 and nodeerr = ref 0.0 in
+           for k = 0 to outs - 1 do
+             let tbl = List.mapi (fun i p -> (p, q2Qc (q_of_float vals.(i * outs + k)))) pts in
+             let v p = try List.assoc p tbl with Not_found -> q2Qc (q_of_float 0.0) in
+             let s = seq_surpluses xs v pts in
+             List.iteri (fun i p ->
+                 let sv = float_of_q (this (List.assoc p s)) in
+                 if Array.length coef = n * outs then coeferr := Float.max !coeferr (Float.abs (sv -. coef.(i * outs + k)) /. scale)) pts;
+             if k = 0 && n <= 40 then List.iteri (fun i p ->
+                 let e = seq_interp xs v pts (List.map xs p) in
+                 nodeerr := Float.max !nodeerr (Float.abs (float_of_q (this e) -. vals.(i * outs + k)) /. scale)) pts
+           done;
+           Printf.printf "sq %s n=%d coeferr=%h nodeerr=%h\n%!" id n !coeferr !nodeerr
+         with e -> Printf.printf "MISMATCH %s runner-exception %s\n%!" id (Printexc.to_string e))
       | _ -> ()) lines
